@@ -859,7 +859,8 @@ def is_plain(v, top=True) -> bool:
     if isinstance(v, list):
         return all(is_plain(x, False) for x in v)
     if isinstance(v, dict):
-        return (all(isinstance(k, str) for k in v) and v.get("type") != "torch.Tensor"
+        tag = v.get("type")
+        return (all(isinstance(k, str) for k in v) and not (isinstance(tag, str) and tag == "torch.Tensor")
                 and all(is_plain(x, False) for x in v.values()))
     return False
 
